@@ -532,12 +532,17 @@ def vSet (types : List Elem) (p : Path) (n enc : String) (cs : List Choice) : R 
   allOk (vChoice ((primSize? prim).getD 0 * 8 - 1) p) cs
   .ok ((primSize? prim).getD 0)
 
+/-- the end of `validate_element_offset` / `validate_field_offset`: `current_offset += enc_size` must not leave
+    `offset_t` (fix 0032) -/
+def vAdvance (p : Path) (off sz : Nat) : R Nat :=
+  if offsetMax < off + sz then fail .offsetOverflow p else .ok (off + sz)
+
 /-- `validate_element_offset`: next running offset -/
 def vElementOffset (types : List Elem) (p : Path) (e : Elem) (cur sz : Nat) : R Nat :=
   if isConstElem types e then .ok cur
   else match e.offset with
-    | some o => if o < cur then fail .offsetTooSmall p else .ok (o + sz)
-    | none => .ok (cur + sz)
+    | some o => if o < cur then fail .offsetTooSmall p else vAdvance p o sz
+    | none => vAdvance p cur sz
 
 mutual
   /-- `validate_encoding` for the five kinds.  `vis` = names whose
@@ -733,8 +738,14 @@ def vFields (types : List Elem) (lp : Path) : Nat → List FieldDef → R Nat
     else
       -- `validate_field_offset`
       match f.offset with
-      | some o => if o < cur then fail .offsetTooSmall (lp ++ [f.name]) else vFields types lp (o + info.1) rest
-      | none => vFields types lp (cur + info.1) rest
+      | some o =>
+        if o < cur then fail .offsetTooSmall (lp ++ [f.name])
+        else do
+          let next ← vAdvance (lp ++ [f.name]) o info.1
+          vFields types lp next rest
+      | none => do
+        let next ← vAdvance (lp ++ [f.name]) cur info.1
+        vFields types lp next rest
 
 def vDatas (types : List Elem) (lp : Path) : List DataDef → R Unit
   | [] => .ok ()
